@@ -111,10 +111,25 @@ for fn, can in (("remove", [dict(name="pop_after_membership_test", where="body:r
                       **(dict(level="bounded", bound="<= 4 elements in the result queue") if fn in ("nearestK", "nearestR") else dict(level="proof")),
                       functions=["NearestNeighborsGNATNoThreadSafety::" + fn] + (["NearestNeighborsGNATNoThreadSafety::postprocessNearest"] if fn in ("nearestK", "nearestR") else []), canaries=can))
 
+# ---------------------------------------------------------------- GNAT Node::add: envelope maintenance (bounded degree)
+GA_RULES = [
+    (r"#ifdef GNAT_SAMPLER.*?#endif", "", 0, __import__("re").S), (r"children_\.empty\(\)", "(n_children == 0)", 0), (r"children_\.size\(\)", "n_children", 0),
+    (r"data_\.push_back\(data\);", "LEAF_PUSH();", 0), (r"gnat\.size_", "gnat_size", 0), (r"needToSplit\(gnat\)", "NEED_SPLIT()", 0), (r"gnat\.removed_\.empty\(\)", "REMOVED_EMPTY()", 0),
+    (r"gnat\.rebuildDataStructure\(\);", "REBUILD();", 0), (r"gnat\.rebuildSize_", "gnat_rebuildSize", 0), (r"std::size_t", "size_t", 0), (r"split\(gnat\);", "SPLIT();", 0),
+    (r"std::vector<double> dist\(n_children\);", "double dist[MAXCH];", 0), (r"gnat\.distFun_\(data, children_\[(\w+)\]->pivot_\)", r"DISTP(\1)", 0),
+    (r"children_\[i\]->updateRange\(minInd, dist\[i\]\);", "CHILD_UPDATE_RANGE(i, minInd, dist[i]);", 0), (r"children_\[minInd\]->updateRadius\(minDist\);", "CHILD_UPDATE_RADIUS(minInd, minDist);", 0),
+    (r"children_\[minInd\]->add\(gnat, data\);", "CHILD_ADD(minInd);", 0),
+]
+UNITS.append(dict(name="c10_gnat_node_add", template="C10/gnat_add.c", mode="plain", entry="h_gnat_add", flags=PFLAGS, unwind=6, level="bounded", bound="<= 4 children per node", backend="minisat", timeout=600,
+                  functions=["NearestNeighborsGNAT::Node::add"],
+                  sources=[dict(name="add", file=GN, sig=r"void add\(GNAT &gnat, const _T &data\)", rules=GA_RULES, loops={"allow_uncontracted": True})],
+                  canaries=[dict(name="range_of_the_wrong_child", where="body:add", rx=r"CHILD_UPDATE_RANGE\(i, minInd, dist\[i\]\);", repl="CHILD_UPDATE_RANGE(i, minInd, dist[minInd]);"),
+                            dict(name="first_child_never_compared", where="body:add", rx=r"for \(unsigned int i = 1; i < n_children; \+\+i\)", repl="for (unsigned int i = 2; i < n_children; ++i)")]))
+
 ASSUMPTIONS = ["GNAT pruning: distances are exact integers standing for reals (linear rule: valid over the reals iff over the integers; rounding not modelled); the range/radius envelopes contain the true pivot-to-element distances (the structure invariant maintained by add/split, assumed here); the metric satisfies the triangle inequality",
                "elements are addressed by slot; the distance function returns a fixed non-NaN value per element; std::sort is an assumed contract (result ordered by the comparator)", "<= 64 stored elements"]
 TRUSTED = ["extraction rewrite table of units/C10.py", "stubs in units/C10/linear.c", "CBMC 6.11 DFCC + cadical"]
-NOT_COVERED = ["NearestNeighborsGNAT as a whole structure (recursion over the tree, Node::add/split maintaining the envelopes, nearestK pruning with the moving k-th best, rebuilds, removal cache), GNATNoThreadSafety beyond the draining of its member result queue, NearestNeighborsSqrtApprox: only the node primitives and the radius pruning step of one node are checked",
+NOT_COVERED = ["NearestNeighborsGNAT as a whole structure (recursion over the tree, Node::split (pivot selection) and the recursion of add below one node, nearestK pruning with the moving k-th best, rebuilds, removal cache), GNATNoThreadSafety beyond the draining of its member result queue, NearestNeighborsSqrtApprox: only the node primitives and the radius pruning step of one node are checked",
                "nearestK of the linear structure (std::partial_sort), GreedyKCenters"]
 
 MISC_CPPS = []
